@@ -4,7 +4,10 @@
 (* entry points LoadString / LoadExpressions (compile and append to the    *)
 (* top-level buffer), Run (execute what is pending), EvalString /          *)
 (* EvalExpressions (= Load then Run), Apply (call a script function from   *)
-(* Go) and Clear.  This is the control state the four stacks of C04 do not *)
+(* Go), SourceStream / SourceFile / SourceExpressions (compile a text and  *)
+(* run it at once, apart from the top-level buffer), zygo.EvalFunction     *)
+(* (the function behind the eval builtin, which environment.go recommends  *)
+(* to hosts over EvalExpressions) and Clear.  This is the control state the four stacks of C04 do not *)
 (* show: the top-level instruction buffer, the program counter and the     *)
 (* chunks that were loaded but have not run yet.                           *)
 (*                                                                         *)
@@ -72,6 +75,16 @@ EvalF(s, c) == RunF(LoadF(s, c))
 ApplyF(s, id, kind) ==
     [s EXCEPT !.fx = Append(@, id), !.out = IF kind = "fail" THEN <<"err">> ELSE <<"val", id>>,
               !.pc = IF ApplyAsPinned /\ kind = "ok" THEN -1 ELSE @, !.loaded = @ + 1]
+(* SourceStream / SourceFile / SourceExpressions called by the host: the text is compiled and run at   *)
+(* once in a function of its own; the host is told only whether it failed. zygo.EvalFunction: the same,  *)
+(* and the value comes back. Like Apply, neither touches the code the host has pending nor the pc.       *)
+SourceF(s, id, kind) ==
+    [s EXCEPT !.fx = IF id = 0 THEN @ ELSE Append(@, id), !.out = IF kind = "fail" THEN <<"err">> ELSE <<"nil">>,
+              !.loaded = @ + 1]
+EvalFnF(s, id, kind) ==
+    [s EXCEPT !.fx = IF id = 0 THEN @ ELSE Append(@, id),
+              !.out = IF kind = "fail" THEN <<"err">> ELSE IF id = 0 THEN <<"nil">> ELSE <<"val", id>>,
+              !.loaded = @ + 1]
 ClearF(s) == [s EXCEPT !.main = 0, !.pc = 0, !.pending = <<>>, !.out = <<"nil">>]
 
 (* ---- the state machine, for the model checker ---- *)
@@ -81,6 +94,7 @@ Next == \/ \E id \in Ids, k \in {"ok", "fail"} :
               /\ loaded < MaxChunks /\ (id = 0 => k = "ok")
               /\ \/ Set(LoadF(St, Chunk(id, k))) \/ Set(EvalF(St, Chunk(id, k)))
                  \/ (id # 0 /\ Set(ApplyF(St, id, k)))
+                 \/ Set(SourceF(St, id, k)) \/ Set(EvalFnF(St, id, k))
         \/ Set(RejectF(St)) \/ Set(RunF(St)) \/ Set(ClearF(St))
 
 Spec == Init /\ [][Next]_vars
